@@ -21,6 +21,7 @@
 #include <fcntl.h>
 #include <unistd.h>
 
+#define DRV_NO_LINE_WATCHDOG 1
 #include "drv_common.h"
 #include "wrap_http.h"
 
